@@ -115,6 +115,16 @@ func (p *Program) SSAPkg(rel string) *ssa.Package {
 
 // Func finds a package-level function or a method ("(*T).M" / "T.M") in a module package.
 func (p *Program) Func(rel, name string) *ssa.Function {
+	// name$N selects the N-th anonymous function (debugging aid)
+	if i := strings.LastIndex(name, "$"); i > 0 {
+		f := p.Func(rel, name[:i])
+		n := 0
+		fmt.Sscanf(name[i+1:], "%d", &n)
+		if f == nil || n < 1 || n > len(f.AnonFuncs) {
+			return nil
+		}
+		return f.AnonFuncs[n-1]
+	}
 	sp := p.SSAPkg(rel)
 	if sp == nil {
 		return nil
